@@ -6,7 +6,11 @@
   C10-MISORDER the buffer is reset for a late packet exactly when it is >= 100 positions late (constant threshold)
   C10-SERIAL   serial-number discipline (rule set of C17) inside jitterbuffer.py, incl. `is None` sentinels
   C10-FEED     the receiver sends a PLI iff add()'s first result is true and queues exactly its second result
-Does not decide: frame integrity over arrival histories, release guarantees.
+  C10-FRAMES   add() evaluated on loss-free arrival schedules (frame-size patterns x prefetch 0..3 x one adjacent swap x origin at the
+               16-bit wrap): whole frames, in order, every packet used once, nothing withheld, no spurious PLI
+  C10-OVERFLOW add() evaluated with a packet lost for good and a burst gap at the moment of overflow: every released frame is a
+               complete sent frame or - only right after a discard - the tail of one; increasing order; PLI raised
+Does not decide: frame integrity for all arrival histories (only the enumerated schedule families).
 """
 from __future__ import annotations
 
